@@ -119,6 +119,8 @@ pub struct World {
     /// per variable: (tick index at which a sample is taken, value x1000, status bits, written since previous tick)
     pub publish_send_times: Vec<u64>,
     pub capacity_shrunk: bool,
+    /// a second, idle connection with its own activated session (its timer task also runs)
+    pub idle_conn: Option<Conn>,
     pub c25_log: Vec<Vec<(u64, i64, u32, bool)>>,
     pub var_status: Vec<u32>,
 }
@@ -170,6 +172,15 @@ impl World {
             }
         }
         let t0 = tokio::time::Instant::now();
+        // the idle connection is opened first, so its timer task runs before the main connection's
+        let mut idle_conn = None;
+        if plan["second_conn"].as_bool().unwrap_or(false) {
+            let mut c2 = Conn::connect(&server, TICK_MS as f64, 1 << 22, 50002);
+            if c2.handshake(opcua::crypto::SecurityPolicy::None, MessageSecurityMode::None, 2048).await {
+                idle_conn = Some(c2);
+                ctx.fault("second_connection");
+            }
+        }
         let mut c = Conn::connect(&server, TICK_MS as f64, 1 << 22, 50001);
         if !c.handshake(opcua::crypto::SecurityPolicy::None, MessageSecurityMode::None, 2048).await {
             ctx.log("handshake-failed", "");
@@ -198,6 +209,7 @@ impl World {
             drained: false,
             publish_send_times: Vec::new(),
             capacity_shrunk: false,
+            idle_conn,
             c25_log: vec![Vec::new(); nvars],
             var_status: vec![0; nvars],
         };
@@ -848,6 +860,13 @@ const OVERFLOW_BIT: u32 = 0x480; // info type DataValue (0x400) + overflow (0x80
 
 impl World {
     pub async fn collect(&mut self, ctx: &mut Ctx) {
+        if let Some(c2) = self.idle_conn.as_mut() {
+            for r in c2.drain(Duration::from_millis(0)).await {
+                if let Recv::Msg(id, m) = &r {
+                    ctx.violate("C21", "response-on-wrong-connection", "", format!("the idle second connection received {} (request id {}) that answers a request of the first connection", l2::msg_kind(m), id));
+                }
+            }
+        }
         let got = self.c.drain(Duration::from_millis(0)).await;
         let mut batch: Vec<(usize, Kind, i64)> = Vec::new();
         // C27: which subscriptions had undelivered data when the last timer tick ran
